@@ -87,7 +87,47 @@ def role_renames(prog: Program) -> dict[str, dict[str, str]]:
     return out
 
 
-def _safe(pred, text: str) -> bool:
+def _sets_attr(fi: FunctionInfo, attr: str, method: str | None = None, const: object = ...) -> bool:
+    """Does the method assign self.<attr> (to `const`) / call self.<attr>.<method>(...)?"""
+    for n in fi.own_nodes():
+        if method is not None and isinstance(n, ast.Call) and isinstance(n.func, ast.Attribute) and n.func.attr == method and isinstance(n.func.value, ast.Attribute) and n.func.value.attr == attr:
+            return True
+        if method is None and isinstance(n, (ast.Assign, ast.AnnAssign)) and getattr(n, "value", None) is not None:
+            for t in n.targets if isinstance(n, ast.Assign) else [n.target]:
+                if isinstance(t, ast.Attribute) and t.attr == attr and (const is ... or (isinstance(n.value, ast.Constant) and n.value.value is const)):
+                    return True
+    return False
+
+
+# class (short qualname) -> {canonical private method: predicate on the method}: methods that anchor rule tables are
+# recognised by what they do (after the attribute renames), so that renaming them does not lose the anchor
+METHOD_ROLES: dict[str, dict[str, Callable[[FunctionInfo], bool]]] = {
+    "context.metrics.ScopeMetrics": {
+        "_complete_if_able": lambda f: _sets_attr(f, "_completed", method="set_result"),
+        "_finish": lambda f: _sets_attr(f, "_finished", const=True) and not _sets_attr(f, "_completed", method="set_result"),
+    },
+}
+
+
+def method_role_renames(prog: Program) -> dict[str, dict[str, str]]:
+    out: dict[str, dict[str, str]] = {}
+    for short, roles in METHOD_ROLES.items():
+        ci = prog.classes.get("haiway." + short)
+        if ci is None:
+            continue
+        m: dict[str, str] = {}
+        for canonical, pred in roles.items():
+            if canonical in ci.methods:
+                continue
+            cands = [name for name, fs in ci.methods.items() if name.startswith("_") and not name.startswith("__") and name not in roles and any(_safe(pred, f) for f in fs)]
+            if len(cands) == 1:
+                m[cands[0]] = canonical
+        if m:
+            out[ci.qualname] = m
+    return out
+
+
+def _safe(pred, text) -> bool:
     try:
         return bool(pred(text))
     except Exception:  # noqa: BLE001
@@ -129,6 +169,8 @@ def apply_renames(prog: Program, renames: dict[str, dict[str, str]]) -> list[str
                 q = next((c.qualname for c in prog.classes.values() if c.node is node), None)
                 if q in renames:
                     for s in node.body:
+                        if isinstance(s, (ast.FunctionDef, ast.AsyncFunctionDef)) and s.name in renames[q]:
+                            s.name = renames[q][s.name]
                         tgts = s.targets if isinstance(s, ast.Assign) else ([s.target] if isinstance(s, ast.AnnAssign) else [])
                         for t in tgts:
                             if isinstance(t, ast.Name) and t.id in renames[q]:
@@ -289,8 +331,14 @@ class Inliner:
             if "classmethod" in decos and not _is_simple(recv):
                 return None
             args = [recv, *args]
-        if star and len(args) != len(params):
+        if star and len(args) < len(params):
             return None  # the starred elements would (partly) fill named parameters
+        if star and len(args) > len(params):
+            # extra positionals travel in the helper's *args in front of the forwarded collection
+            if not a.vararg or not all(_is_simple(x) for x in args[len(params) :]):
+                return None
+            var_value = ast.Tuple(elts=[clone(x) for x in args[len(params) :]] + [ast.Starred(value=clone(var_value), ctx=ast.Load())], ctx=ast.Load())
+            args = args[: len(params)]
         if len(args) > len(params):
             if not a.vararg or star or not all(_is_simple(x) for x in args[len(params) :]):
                 return None
@@ -358,6 +406,18 @@ class Inliner:
                 return n
 
             nested = 0
+
+            def visit_Call(self, n: ast.Call):  # noqa: N802
+                self.generic_visit(n)
+                # f(*(<a>, *<xs>))  ->  f(<a>, *<xs>)   (a tuple display bound to the helper's *args)
+                flat: list[ast.expr] = []
+                for a_ in n.args:
+                    if isinstance(a_, ast.Starred) and isinstance(a_.value, ast.Tuple):
+                        flat.extend(a_.value.elts)
+                    else:
+                        flat.append(a_)
+                n.args = flat
+                return n
 
             def visit_Return(self, n: ast.Return):  # noqa: N802
                 self.generic_visit(n)
@@ -714,6 +774,34 @@ def _set_slot(owner, field, idx, new) -> None:
         setattr(owner, field, new)
 
 
+def _each_store_feeds_next(body: list[ast.stmt], name: str, blocks) -> bool:
+    """Every binding of `name` is a plain assignment whose only use is in the statement right after it."""
+    loads, stores = _name_uses(body, name)
+    used: set[int] = set()
+    for st in stores:
+        if not isinstance(st, ast.Name):
+            return False
+        nxt = None
+        for blk in blocks(body):
+            for i, x in enumerate(blk):
+                tgt = x.targets[0] if isinstance(x, ast.Assign) and len(x.targets) == 1 else (x.target if isinstance(x, ast.AnnAssign) and x.value is not None else None)
+                if tgt is st and i + 1 < len(blk):
+                    nxt = blk[i + 1]
+        if nxt is None:
+            return False
+        here = [n for n in ast.walk(nxt) if isinstance(n, ast.Name) and n.id == name and isinstance(n.ctx, ast.Load)]
+        if len(here) != 1:
+            return False
+        used.add(id(here[0]))
+    return len(used) == len(loads) and all(id(ld) in used for ld in loads)
+
+
+def _root_name(e: ast.AST) -> str | None:
+    while isinstance(e, ast.Attribute):
+        e = e.value
+    return e.id if isinstance(e, ast.Name) else None
+
+
 def simplify_locals(fi: FunctionInfo, body: list[ast.stmt], log: list[str]) -> bool:
     """(a) bound-method aliases `f = obj.method` used only as `f(...)` are substituted;
     (b) a single-assignment local used exactly once, first thing in the next statement, is
@@ -752,6 +840,8 @@ def simplify_locals(fi: FunctionInfo, body: list[ast.stmt], log: list[str]) -> b
                 if len(stores) != 1 and len(stores) != len(loads):
                     continue
                 multi = len(stores) != 1
+                if multi and not _each_store_feeds_next(body, name, blocks):
+                    continue  # several definitions that are not all "define, use once in the very next statement"
                 # closures reading the name keep it alive
                 if any(isinstance(n, (ast.FunctionDef, ast.AsyncFunctionDef, ast.Lambda)) and any(isinstance(x, ast.Name) and x.id == name for x in ast.walk(n)) for st in body for n in ast.walk(st)):
                     continue
@@ -766,6 +856,32 @@ def simplify_locals(fi: FunctionInfo, body: list[ast.stmt], log: list[str]) -> b
                                     c.func = ast.copy_location(clone(value), c.func)
                         block[i] = ast.copy_location(ast.Pass(), s1)
                         log.append(f"{fi.short}: substituted bound-method alias `{name}`")
+                        changed = again = True
+                        break
+                # (c) alias of an attribute that this function never re-binds: `group = self._group` ... `group.x()` -> `self._group.x()`
+                if not multi and loads and isinstance(value, ast.Attribute) and _is_simple(value) and isinstance(_root_name(value), str) and _root_name(value) in params:
+                    chain = dotted(value)
+                    rebinds = any(
+                        isinstance(n, (ast.Assign, ast.AugAssign, ast.AnnAssign, ast.Delete)) and any(dotted(t) is not None and (dotted(t) == chain or chain.startswith(dotted(t) + ".")) for t in (n.targets if isinstance(n, (ast.Assign, ast.Delete)) else [n.target]) for t in ([t] if not isinstance(t, (ast.Tuple, ast.List)) else t.elts))
+                        for st in body
+                        for n in ast.walk(st)
+                    )
+                    root_rebound = any(isinstance(n, ast.Name) and n.id == _root_name(value) and isinstance(n.ctx, ast.Store) for st in body for n in ast.walk(st))
+                    if chain and not rebinds and not root_rebound:
+
+                        class _Sub(ast.NodeTransformer):
+                            def visit_Name(self, n: ast.Name):  # noqa: N802
+                                if n.id == name and isinstance(n.ctx, ast.Load):
+                                    return ast.copy_location(clone(value), n)
+                                return n
+
+                        for bi, st in enumerate(body):
+                            body[bi] = _Sub().visit(st)
+                        for blk in blocks(body):
+                            for bj, st in enumerate(blk):
+                                if st is s1:
+                                    blk[bj] = ast.copy_location(ast.Pass(), s1)
+                        log.append(f"{fi.short}: substituted attribute alias `{name}` = {chain}")
                         changed = again = True
                         break
                 # (b) forward substitution into the next statement
@@ -852,4 +968,66 @@ def unfold_missing_predicates(prog: Program) -> list[str]:
         mod.tree = T().visit(mod.tree)
         if count:
             log.append(f"{mod.name}: {count} missing-predicate call(s) unfolded")
+    return log
+
+
+# ---------------------------------------------------------------------------------------------- conditional returns
+def _is_bool_test(e: ast.AST) -> bool:
+    """An expression that evaluates to exactly True / False (so `e and rest` is `rest if e else False`)."""
+    if isinstance(e, ast.Call) and isinstance(e.func, ast.Name) and e.func.id in ("isinstance", "issubclass", "callable", "hasattr"):
+        return True
+    if isinstance(e, ast.Compare) and all(isinstance(o, (ast.Is, ast.IsNot)) for o in e.ops):
+        return True
+    if isinstance(e, ast.UnaryOp) and isinstance(e.op, ast.Not):
+        return True
+    return False
+
+
+def split_conditional_returns(prog: Program) -> list[str]:
+    """`return a if t else b`  ->  `if t: return a  else: return b`  (the branch taken becomes control flow that the
+    CFG / scenario machinery sees; the expression form and the statement form are the same program)."""
+    log: list[str] = []
+
+    class T(ast.NodeTransformer):
+        count = 0
+
+        def visit_Return(self, n: ast.Return):  # noqa: N802
+            v = n.value
+            casts = []
+            while isinstance(v, ast.Call) and isinstance(v.func, ast.Name) and v.func.id == "cast" and len(v.args) == 2:
+                casts.append(v)
+                v = v.args[1]
+            if isinstance(v, ast.BoolOp) and isinstance(v.op, ast.And) and len(v.values) >= 2 and _is_bool_test(v.values[0]) and not casts:
+                # `return isinstance(..) and rest`  ->  `if isinstance(..): return rest  else: return False`
+                T.count += 1
+                rest = v.values[1] if len(v.values) == 2 else ast.BoolOp(op=ast.And(), values=v.values[1:])
+                new = ast.If(
+                    test=v.values[0],
+                    body=[self.visit_Return(ast.copy_location(ast.Return(value=rest), n))],
+                    orelse=[ast.copy_location(ast.Return(value=ast.Constant(value=False)), n)],
+                )
+                return ast.fix_missing_locations(ast.copy_location(new, n))
+            if not isinstance(v, ast.IfExp):
+                return n
+            T.count += 1
+
+            def wrap(x: ast.AST) -> ast.AST:
+                for c in reversed(casts):
+                    x = ast.Call(func=clone(c.func), args=[clone(c.args[0]), x], keywords=[])
+                return x
+
+            new = ast.If(
+                test=v.test,
+                body=[self.visit_Return(ast.copy_location(ast.Return(value=wrap(v.body)), n))],
+                orelse=[self.visit_Return(ast.copy_location(ast.Return(value=wrap(v.orelse)), n))],
+            )
+            # nested visit may return an If
+            new.body = [x for x in new.body]
+            return ast.fix_missing_locations(ast.copy_location(new, n))
+
+    for mod in prog.modules.values():
+        before = T.count
+        mod.tree = T().visit(mod.tree)
+        if T.count > before:
+            log.append(f"{mod.name}: {T.count - before} conditional return(s) split")
     return log
